@@ -283,6 +283,10 @@ func (sg *sqlGen) ensureEnum(str bool) string {
 				v = `"it's"`
 				sg.o.class("enum:string_with_single_quote")
 			}
+			if i == 2 && rapid.IntRange(0, 2).Draw(t, "sqlEnumBackslash") == 0 {
+				v = `"a\\b"` // a backslash is an ordinary character inside '...' (standard_conforming_strings)
+				sg.o.class("enum:string_with_backslash")
+			}
 			cs.Type, cs.Exprs, cs.Vals = name, []string{v}, []string{v}
 		} else {
 			if i == 0 {
